@@ -579,3 +579,50 @@ Definition from_header (src dst : hclass) (check : bool) (h : hdr) : cres hdr :=
       end
     end
   end.
+
+(* ------------------------------------------------------------------ identity of the mutable parts
+   A header object owns two mutable parts: the NumPy buffer of its struct array and (NIfTI only)
+   the Python list of its extensions (the extension objects in it have no public mutator and are
+   shared by design: "take reference to extensions").  The store maps buffer ids / list ids to their
+   current contents; a header reference holds one id of each.  Counterparts:
+     WrapStruct.copy / Nifti1Header.copy  = klass(self.binaryblock, self.endianness, False, self.extensions)
+       -> copy_ref: tobytes() makes a new buffer, exts_klass(extensions) a new list with the same items
+     same-class from_header, image construction from a header -> copy_ref
+     hdr[field] = v, setters                -> MSetBytes (through the buffer id)
+     hdr.extensions.append / del [:] / [:] = -> MExtAppend / MExtClear / MExtSet (through the list id) *)
+Definition extn := (Z * list Z)%type.                      (* (code, content) *)
+Record store := mkStore { s_bufs : list (list Z); s_lists : list (list extn) }.
+Record href := mkRef { r_be : bool; r_buf : nat; r_exts : nat }.
+
+Definition view (s : store) (r : href) : bool * list Z * list extn :=
+  (r_be r, nth (r_buf r) (s_bufs s) [], nth (r_exts r) (s_lists s) []).
+Definition ref_ok (s : store) (r : href) : Prop :=
+  (r_buf r < length (s_bufs s))%nat /\ (r_exts r < length (s_lists s))%nat.
+
+Definition new_header (s : store) (be : bool) (b : list Z) (l : list extn) : store * href :=
+  (mkStore (s_bufs s ++ [b]) (s_lists s ++ [l]), mkRef be (length (s_bufs s)) (length (s_lists s))).
+Definition copy_ref (s : store) (r : href) : store * href :=
+  new_header s (r_be r) (nth (r_buf r) (s_bufs s) []) (nth (r_exts r) (s_lists s) []).
+
+Fixpoint upd_nth {A} (n : nat) (x : A) (l : list A) : list A :=
+  match n, l with
+  | O, _ :: t => x :: t
+  | S n', y :: t => y :: upd_nth n' x t
+  | _, [] => []
+  end.
+Inductive mutation := MSetBytes (b : list Z) | MExtAppend (e : extn) | MExtClear | MExtSet (l : list extn).
+Definition mutate (s : store) (r : href) (m : mutation) : store :=
+  match m with
+  | MSetBytes b => mkStore (upd_nth (r_buf r) b (s_bufs s)) (s_lists s)
+  | MExtAppend e => mkStore (s_bufs s) (upd_nth (r_exts r) (nth (r_exts r) (s_lists s) [] ++ [e]) (s_lists s))
+  | MExtClear => mkStore (s_bufs s) (upd_nth (r_exts r) [] (s_lists s))
+  | MExtSet l => mkStore (s_bufs s) (upd_nth (r_exts r) l (s_lists s))
+  end.
+(* what the mutation does to the view of the object it goes through *)
+Definition mutated_view (v : bool * list Z * list extn) (m : mutation) : bool * list Z * list extn :=
+  match v, m with
+  | (be, b, l), MSetBytes b' => (be, b', l)
+  | (be, b, l), MExtAppend e => (be, b, l ++ [e])
+  | (be, b, l), MExtClear => (be, b, [])
+  | (be, b, l), MExtSet l' => (be, b, l')
+  end.
